@@ -4,6 +4,10 @@ import json, os
 HERE = os.path.dirname(os.path.dirname(os.path.abspath(__file__)))
 
 CHECKS = {
+ 'C14': dict(level='model_checking', design='2/C14',
+   technique='deviation-bounded DFS over reply orders and per-reply faults of concurrent real SFTPClient calls over a model server; exhaustive enumeration of request type x shape x version against the real SFTPServerHandler with a probe request; exhaustive flag-subset enumeration of the attribute codecs with an independent layout encoder',
+   text='(a) 2-3 concurrent client calls; any outstanding request may be answered next, correctly or once with a wrong reply type, unknown/duplicate/foreign id, or a caller is cancelled and its reply arrives late: every caller ends with its own value or an SFTPError, and with only correct replies always with its own value. (b) For versions 3-6 every request type and extension in well-formed, every-truncation and trailing-byte shape gets exactly one reply with its id and a legal type, unknown types get OP_UNSUPPORTED, and a following request is still served; 16 errno values and 19 SFTPError classes map to the expected status per version. (c) decode(encode(x)) == x and encode layout == independent encoder for every subset of attribute field groups per version.',
+   note='errno table written from the status-code definitions; SFTP v5 attrib-bits only round-tripped.'),
  'C12': dict(level='model_checking', design='2/C12',
    technique='deviation-bounded stateless DFS over reply schedules and reply faults (order, short reads, errors, premature EOF, simultaneous completions in both asyncio.wait orders) of a model SFTP server under the real SFTPClient transfer code, model file store as reference; plus end-to-end sparse transfers through the real server',
    text='get/put/copy (sparse and non-sparse) and SFTPClientFile read/write run for block size {4,8} x max_requests {1,2,3} x sizes around block/window multiples x all 16 hole layouts of a 4-block file (with/without the ranges extension) while the explorer answers any of the 3 oldest outstanding requests in full, with 1 byte, half, FAILURE, PERMISSION_DENIED or premature EOF. A normal return must leave destination == source; any failed block (or early end of a non-sparse source) must raise. End-to-end: tmpfs sparse files with up to 129 (thorough 300) extents through real client, SSH and real SFTPServer.',
